@@ -49,6 +49,32 @@ class Shuffle:
             lst.append(lst.pop(0))
 
 
+class StubTrace:
+    """Trace whose callbacks really suspend (k loop iterations each), like a user trace doing I/O."""
+
+    def __init__(self, k: int) -> None:
+        self.k = k
+
+    async def _y(self) -> None:
+        for _ in range(self.k):
+            await asyncio.sleep(0)
+
+    async def send_connection_queued_start(self) -> None:
+        await self._y()
+
+    async def send_connection_queued_end(self) -> None:
+        await self._y()
+
+    async def send_connection_create_start(self) -> None:
+        await self._y()
+
+    async def send_connection_create_end(self) -> None:
+        await self._y()
+
+    async def send_connection_reuseconn(self) -> None:
+        await self._y()
+
+
 class Sim:
     """One execution of a schedule prefix against a real connector."""
 
@@ -124,7 +150,8 @@ class Sim:
     async def _task(self, i: int) -> None:
         self.state[i] = "waiting"
         try:
-            conn = await self.connector.connect(self.Req(i), [], self.timeout)
+            traces = [StubTrace(self.cfg["trace_yields"])] if self.cfg.get("trace_yields") else []
+            conn = await self.connector.connect(self.Req(i), traces, self.timeout)
         except asyncio.CancelledError:
             self.state[i] = "cancelled"
             raise
@@ -376,6 +403,8 @@ CONFIGS_SMALL = [
     {"hosts": [0, 0, 1], "limit": 1, "lph": 0, "force_close": True},
     {"hosts": [0, 1, 0], "limit": 1, "lph": 0, "shuffle": 1},
     {"hosts": [0, 0, 1, 1], "limit": 2, "lph": 1, "shuffle": 2},
+    {"hosts": [0, 0, 0], "limit": 1, "lph": 0, "trace_yields": 1},
+    {"hosts": [0, 0, 1], "limit": 2, "lph": 1, "trace_yields": 2},
 ]
 
 
@@ -389,7 +418,7 @@ def cases(draw):
     n = draw(st.integers(2, 5))
     nh = draw(st.integers(1, 3))
     cfg = {"hosts": [draw(st.integers(0, nh - 1)) for _ in range(n)], "limit": draw(st.integers(0, 3)), "lph": draw(st.integers(0, 2)),
-           "shuffle": draw(st.integers(0, 2)), "force_close": draw(st.booleans())}
+           "shuffle": draw(st.integers(0, 2)), "force_close": draw(st.booleans()), "trace_yields": draw(st.sampled_from([0, 0, 1, 2]))}
     ev = st.one_of(
         st.tuples(st.sampled_from(["start", "ok", "ok", "fail", "release", "release", "close", "cancel"]), st.integers(0, n - 1)),
         st.just(("closeall",)),
